@@ -34,6 +34,12 @@ CHECKS = {
             "Real calls with hostile results and raised exception kinds; the monitor checks by object identity what postconditions, "
             "error factories and the caller received, and the exact postcondition trace against the model.",
             "Executions produced only; trusted: model CNF semantics, harness tokens are unique objects.", "3/C02"),
+    "C03": ("exploration", "runtime monitoring: invariant-probe log with constructor enter/exit markers judged against the statement's clauses",
+            "Generated class chains (flavours, constructor styles incl. super().__init__ at any position, invariants with every "
+            "check_on in every order, split over base and subclasses) driven through construction and every operation kind with truth "
+            "sequences that flip between before and after; the monitor sees which invariants ran, on which object, in which construction "
+            "phase, and whether the member body ran.",
+            "Executions produced only; silent zones (slot wrappers of object, evaluation after a raising body, non-DBC subclasses) not generated.", "3/C03"),
     "C05": ("exploration", "runtime monitoring: identity of objects received by probes vs. the body and vs. inspect.signature().bind",
             "Bounded-exhaustive: all signatures up to 4 (thorough 5) named parameters x all call shapes Python accepts, plus sampled wide "
             "signatures; every probe (precondition, snapshot, postcondition, error factory) logs the objects it received, compared by "
